@@ -47,12 +47,12 @@ def run(tier, seed, scale):
     ]
     q = tier == "quick"
     phases = [
-        P("rel-hot", "rel", 2400 if q else 30000, 6 if q else 12, min_nontrivial=1200 if q else 15000, timeout=1500),
-        P("rel-nomonitor", "rel", 600 if q else 8000, 2 if q else 4, args=["--monitor", "0"], timeout=1500),
-        P("rel-2cpu", "rel", 500 if q else 6000, 2 if q else 4, cpus=2, timeout=1500),
+        P("rel-hot", "rel", 2100 if q else 30000, 6 if q else 12, min_nontrivial=1000 if q else 15000, timeout=1500),
+        P("rel-nomonitor", "rel", 500 if q else 8000, 2 if q else 4, args=["--monitor", "0"], timeout=1500),
+        P("rel-2cpu", "rel", 400 if q else 6000, 2 if q else 4, cpus=2, timeout=1500),
         P("rel-1cpu", "rel", 300 if q else 4000, 2 if q else 4, cpus=1, timeout=1500),
-        P("relD-hot", "rel", 900 if q else 12000, 3 if q else 6, malloc_debug=True, timeout=1500),
-        P("tsan", "tsan", 150 if q else 2400, 3 if q else 6, timeout=1800),
+        P("relD-hot", "rel", 750 if q else 12000, 3 if q else 6, malloc_debug=True, timeout=1500),
+        P("tsan", "tsan", 90 if q else 1800, 3 if q else 6, timeout=1800),
     ]
     if not q:
         phases += [
